@@ -1013,9 +1013,15 @@ class CryptContext:
             tmp = source
             source = dict(self._config.iter_config(resolve=True))
             source.update(tmp)
-            for (cat, scheme, key), value in tmp.items():
-                if value is None and not cat and not scheme and key in _global_settings:
-                    # the bare spelling of a global setting is stored under the "all" scheme
+            for cat, scheme, key in tmp:
+                if (
+                    not cat
+                    and not scheme
+                    and key in _global_settings
+                    and (None, "all", key) not in tmp
+                ):
+                    # the bare spelling of a global setting is stored under the "all" scheme:
+                    # the new value replaces that one (also when it means "not set": None, "none")
                     source.pop((None, "all", key), None)
 
         # -----------------------------------------------------------
